@@ -74,6 +74,10 @@ func (r *Ref) Equals(other vivid.ActorRef) bool {
 	if other == nil {
 		return false
 	}
+	// 接口中携带的 nil *Ref（例如根 Actor 的父引用）同样表示"无引用"：不可对其调用方法
+	if o, ok := other.(*Ref); ok && o == nil {
+		return false
+	}
 	return r.GetAddress() == other.GetAddress() && r.GetPath() == other.GetPath()
 }
 
